@@ -1,0 +1,61 @@
+//! Verification hooks (cargo feature `verif`, off by default).
+//!
+//! A process-global callback receives an [`Event`] at the synchronisation points of the server:
+//! around the file-table lock, around salsa input writes (which wait for every snapshot to be
+//! dropped), and at the start and end of every snapshot task. The callback may block the calling
+//! thread at `*Want` / `TaskStart` events only; nothing here changes control flow or data.
+use std::sync::{Arc, RwLock};
+
+#[derive(Debug, Clone, PartialEq, Eq)]
+pub enum Event {
+    NotifEnter,
+    NotifExit,
+    VfsWriteWant,
+    VfsWriteHeld,
+    VfsWriteReleased,
+    SalsaWriteWant,
+    SalsaWriteDone,
+    SnapshotTaken { task: u64, label: &'static str },
+    TaskStart { task: u64 },
+    TaskEnd { task: u64 },
+    VfsReadWant,
+    VfsReadHeld,
+    VfsReadReleased,
+}
+
+pub type Hook = Arc<dyn Fn(&Event) + Send + Sync>;
+
+static HOOK: RwLock<Option<Hook>> = RwLock::new(None);
+
+pub fn set_hook(hook: Option<Hook>) {
+    *HOOK.write().unwrap_or_else(|e| e.into_inner()) = hook;
+}
+
+pub fn emit(event: Event) {
+    let hook = HOOK.read().unwrap_or_else(|e| e.into_inner()).clone();
+    if let Some(hook) = hook {
+        hook(&event);
+    }
+}
+
+/// Emits `exit` when dropped.
+pub struct Scope(Option<Event>);
+
+impl Drop for Scope {
+    fn drop(&mut self) {
+        if let Some(event) = self.0.take() {
+            emit(event);
+        }
+    }
+}
+
+pub fn scope(enter: Event, exit: Event) -> Scope {
+    emit(enter);
+    Scope(Some(exit))
+}
+
+pub fn next_task_id() -> u64 {
+    use std::sync::atomic::{AtomicU64, Ordering};
+    static NEXT: AtomicU64 = AtomicU64::new(0);
+    NEXT.fetch_add(1, Ordering::Relaxed)
+}
